@@ -60,3 +60,31 @@ Example C14_example_atg : std_amino 97 84 103 = Some 77 (* "aTg" -> 'M' *)
   /\ dna8 (bs "Ac") /\ frames (bs "A") = Ok [[]; []; []]
   /\ translate [] (bs "AC") = Panic /\ translate [] (bs "ACN") = Panic.
 Proof. vm_compute. repeat split; repeat constructor. Qed.
+
+(* ---- tie to the Go source by translation of whole function bodies (gen/ImpGen.v) -------- *)
+From Bio.gen Require ImpGen.
+From Bio.Model Require GoSem.
+From Bio.Proofs Require ImpProofs ImpProofsB.
+
+(* Translate's loop `for i := 0; i < len(src); i += 3` is run on explicit fuel; any fuel
+   above len(src)/3 gives the model's answer. *)
+Theorem C14_translate_is_source : forall fuel dst src, ImpProofs.all_bytes src ->
+  (length src / 3 < fuel)%nat ->
+  ImpGen.imp_sequtil_Translate fuel dst src = ImpProofs.of_outcome (translate dst src).
+Proof. exact ImpProofsB.imp_Translate. Qed.
+Print Assumptions C14_translate_is_source.
+
+Theorem C14_frames_is_source : forall fuel s, ImpProofs.all_bytes s ->
+  (length s / 3 < fuel)%nat ->
+  ImpGen.imp_sequtil_TranslateReadingFrames fuel s = ImpProofs.of_outcome (frames s).
+Proof. exact ImpProofsB.imp_TranslateReadingFrames. Qed.
+Print Assumptions C14_frames_is_source.
+
+Example C14_source_example :
+  ImpGen.imp_sequtil_Translate 3 [] (bs "atgTAA") = GoSem.Ret (bs "M*")
+  /\ ImpGen.imp_sequtil_Translate 3 [] (bs "atgTA") = GoSem.Panics
+  /\ ImpGen.imp_sequtil_Translate 3 [] (bs "atgTAN") = GoSem.Panics
+  /\ ImpGen.imp_sequtil_TranslateReadingFrames 3 (bs "ATGAT") = GoSem.Ret [bs "M"; bs "*"; bs "D"]
+  /\ ImpGen.imp_sequtil_TranslateReadingFrames 1 [] = GoSem.Ret [[]; []; []]
+  /\ ImpProofs.all_bytes (bs "atgTAA").
+Proof. vm_compute. repeat split; repeat constructor. Qed.
